@@ -184,7 +184,13 @@ func (ex *Exec) decide(alts []alt) int {
 		panic(pathAbort{"ENGINE prefix alternative not found (non-deterministic re-execution)"})
 	}
 	var feas []alt
-	for _, a := range live {
+	for i, a := range live {
+		// alternatives are exhaustive and the path condition is satisfiable: if every earlier
+		// alternative is infeasible the last one must be feasible (saves a query)
+		if i == len(live)-1 && len(feas) == 0 {
+			feas = append(feas, a)
+			break
+		}
 		if ex.sol.Feasible(a.cond) {
 			feas = append(feas, a)
 		}
